@@ -8,6 +8,7 @@
 //   scheduled time, none that is detached runs at all.  Callbacks add sessions (growing the server's session table mid-sweep), end
 //   sessions and re-time other nodes from inside Pulse().
 #pragma once
+#include <set>
 #include <string>
 #include <vector>
 #include <map>
@@ -70,7 +71,7 @@ inline Plan Gen(uint64_t seed)
       }
       else if (k < 75) {const int v = any(); if (v) {p.push_back("end " + I(v)); for (size_t i=0; i<alive.size(); i++) if (alive[i] == v) {alive.erase(alive.begin()+(long) i); break;}}}
       else if (k < 82) {const int n = any(); p.push_back("period " + I(n) + " " + U(wl.oneIn(4) ? 0 : (1 + wl.below(80))));}
-      else if (k < 90) {std::vector<int> ss; for (int a : alive) if (sock[(size_t) a]) ss.push_back(a); if (!ss.empty()) p.push_back("out " + I(ss[wl.below((uint32_t) ss.size())]) + " " + U(10 + wl.below(3000)));}
+      else if (k < 90) {std::vector<int> ss; for (int a : alive) if (sock[(size_t) a]) ss.push_back(a); if (!ss.empty()) {const int sid = ss[wl.below((uint32_t) ss.size())]; if (wl.oneIn(3)) p.push_back("block " + I(sid) + " " + I(wl.oneIn(3) ? 0 : 1)); p.push_back("out " + I(sid) + " " + U(10 + wl.below(3000)));}}   /* block: the peer stops reading, so output stays queued while the server waits */
       else p.push_back("iter 0");
    }
    p.push_back("iter 0"); p.push_back("iter 0");
@@ -158,7 +159,7 @@ struct H
       H * h = s_cur; if (h) h->AtWait();
       int cnt = 0;   // sockets: always writable, never readable (the peers never send and never read; the streams are unbounded)
       if (r) FD_ZERO(r); if (e) FD_ZERO(e);
-      if (w) {for (int fd=0; fd<FD_SETSIZE; fd++) if (FD_ISSET(fd, w)) cnt++;}
+      if (w) {for (int fd=0; fd<FD_SETSIZE; fd++) if (FD_ISSET(fd, w)) {if ((h)&&(h->blockedFds.count(fd))) FD_CLR(fd, w); else cnt++;}}   // (except those of peers that stopped reading)
       return cnt;
    }
    void AtWait()
@@ -215,6 +216,13 @@ struct H
       if ((s[0] < '0')||(s[0] > '9')) return false; out = ToU(s); return true;
    }
    int AllocId() {while((nextSpawnId < 399)&&(sh.find(nextSpawnId) != sh.end())) nextSpawnId++; return (nextSpawnId < 399) ? nextSpawnId : -1;}
+   std::set<int> blockedFds;
+   void Block(int id, bool on)
+   {
+      auto si = sess.find(id); auto fi = fdOf.find(id); if ((si == sess.end())||(fi == fdOf.end())) return;
+      si->second->_out.capacity = on ? 0 : (uint64_t)-1;
+      if (on) {blockedFds.insert(fi->second); st.inc("f.peer_stopped_reading");} else blockedFds.erase(fi->second);
+   }
    void AddSession(int id, bool withSock, int policy)
    {
       if ((id < 0)||((id >= 100)&&(id <= 101))||(id >= 400)||(sh.find(id) != sh.end())) return;
@@ -307,6 +315,7 @@ inline void Exec(const Plan & plan, RunResult & res)
       else if ((t[0] == "inpulse")&&(t.size() >= 3)) {auto it = h.sh.find((int) ToI(t[1])); if (it != h.sh.end()) it->second.inPulse.push_back(std::vector<std::string>(t.begin()+2, t.end()));}
       else if ((t[0] == "end")&&(t.size() >= 2)) h.EndSess((int) ToI(t[1]));
       else if ((t[0] == "out")&&(t.size() >= 3)) {auto si = h.sess.find((int) ToI(t[1])); if ((si != h.sess.end())&&(h.sh[si->first].sock)) {MessageRef m = GetMessageFromPool(1234); ByteBuffer bb; (void) bb.SetNumBytes((uint32) std::min<uint64_t>(ToU(t[2]), 100000), false); memset(bb.GetBuffer(), 7, bb.GetNumBytes()); (void) m()->AddData("d", B_RAW_TYPE, bb.GetBuffer(), bb.GetNumBytes()); (void) si->second->AddOutgoingMessage(m); h.st.inc("p.output_queued_under_policy");}}
+      else if ((t[0] == "block")&&(t.size() >= 3)) h.Block((int) ToI(t[1]), ToI(t[2]) != 0);
       else if ((t[0] == "iter")&&(t.size() >= 2)) h.Iter(ToI(t[1]));
       h.Check();
    }
